@@ -124,6 +124,12 @@ func (vc *VC) evalCallWith(st *State, call *ast.CallExpr, preRecv *Term, preArgs
 	if callee == nil {
 		vc.fail(call, "cannot resolve callee of %s", exprString(call))
 	}
+	// sync.Mutex / sync.RWMutex operations on a field: ghost lock state keyed by the owner object
+	if callee.Pkg() != nil && callee.Pkg().Path() == "sync" && recvExpr != nil {
+		if handled := vc.lockOp(st, callee, recvExpr, call); handled {
+			return nil
+		}
+	}
 	// a method of a type-parameter constraint / interface called on a receiver whose (substituted) type is
 	// concrete: dispatch statically to the concrete method
 	if recv != nil {
@@ -256,8 +262,8 @@ func (vc *VC) convert(st *State, v Term, to types.Type, at ast.Node) Term {
 		if sl, ok := under(v.T).(*types.Slice); ok && isInteger(sl.Elem()) {
 			// string([]byte): fresh string with the same bytes
 			r := vc.fresh("str", to)
-			st.assume(fmt.Sprintf("(= (str.len %s) %s)", r.S, vc.sliceLen(v)))
-			st.assume(fmt.Sprintf("(forall ((i!b Int)) (! (=> (and (<= 0 i!b) (< i!b %s)) (= (str.at %s i!b) (select %s i!b))) :pattern ((str.at %s i!b))))", vc.sliceLen(v), r.S, vc.sliceArr(v), r.S))
+			st.assume(fmt.Sprintf("(= (s.len %s) %s)", r.S, vc.sliceLen(v)))
+			st.assume(fmt.Sprintf("(forall ((i!b Int)) (! (=> (and (<= 0 i!b) (< i!b %s)) (= (s.at %s i!b) (select %s i!b))) :pattern ((s.at %s i!b))))", vc.sliceLen(v), r.S, vc.sliceArr(v), r.S))
 			return r
 		}
 	case isInterface(to):
@@ -266,8 +272,8 @@ func (vc *VC) convert(st *State, v Term, to types.Type, at ast.Node) Term {
 	if sl, ok := under(to).(*types.Slice); ok && isString(v.T) && isInteger(sl.Elem()) {
 		// []byte(s)
 		a := vc.freshSort("bytes", "(Array Int Int)")
-		st.assume(fmt.Sprintf("(forall ((i!b Int)) (! (= (select %s i!b) (str.at %s i!b)) :pattern ((select %s i!b))))", a.S, v.S, a.S))
-		return vc.mkSlice(to, a.S, "(str.len "+v.S+")", "true")
+		st.assume(fmt.Sprintf("(forall ((i!b Int)) (! (= (select %s i!b) (s.at %s i!b)) :pattern ((select %s i!b))))", a.S, v.S, a.S))
+		return vc.mkSlice(to, a.S, "(s.len "+v.S+")", "true")
 	}
 	if vc.u.SortOf(to) == v.Sort {
 		r := v
@@ -374,6 +380,9 @@ func (vc *VC) evalBuiltin(st *State, name string, call *ast.CallExpr, preArgs []
 		m := arg(0)
 		mi := vc.mapInfo(m.T)
 		k := vc.coerce(arg(1), mi.K)
+		if preArgs == nil {
+			vc.checkGuardExpr(st, call.Args[0], true)
+		}
 		vc.mapDelete(st, mi, m.S, k.S)
 		return nil
 	case "panic":
@@ -528,6 +537,7 @@ func (vc *VC) callByContract(st *State, spec *FuncSpec, callee *types.Func, sig 
 	}
 	// results
 	var rets []Term
+	pre0 := &SpecEnv{vc: vc, st: pre, old: pre, vars: vars, pkg: cpkg, allocOld: pre.alloc}
 	post := &SpecEnv{vc: vc, st: st, old: pre, vars: vars, pkg: cpkg, allocOld: pre.alloc}
 	rv := map[string]Term{}
 	for i := 0; i < sig.Results().Len(); i++ {
@@ -546,6 +556,10 @@ func (vc *VC) callByContract(st *State, spec *FuncSpec, callee *types.Func, sig 
 	post = post.with(rv)
 	for _, e := range spec.Ensures {
 		st.assume(post.evalBool(e.Expr))
+	}
+	if spec.Panics != nil {
+		// the callee documents when it panics; execution continues only if it did not
+		st.assume(not(pre0.evalBool(spec.Panics.Expr)))
 	}
 	if spec.Opts["noreturn"] == "true" {
 		st.dead = true
@@ -656,11 +670,28 @@ func (vc *VC) evalWriteTarget(env *SpecEnv, e ast.Expr, text string, add func(h,
 				}
 				return
 			}
+			if id, ok := ce.Fun.(*ast.Ident); ok && id.Name == "contents" {
+				// contents(e): the map / channel object e refers to
+				x := env.eval(ce.Args[0])
+				vc.addObjectTargets(env, x, e, add)
+				return
+			}
+			if id, ok := ce.Fun.(*ast.Ident); ok && id.Name == "lock" {
+				hn, ref := env.lockTarget(ce.Args[0])
+				add(hn, ref)
+				return
+			}
 			if id, ok := ce.Fun.(*ast.Ident); ok && id.Name == "ghost" {
 				// ghost(name, ref)
-				name := "G$" + ce.Args[0].(*ast.Ident).Name
+				gname := ce.Args[0].(*ast.Ident).Name
+				hn, hs, _, _ := vc.ghostHeap(gname, env.pkg)
+				vc.heapGet(env.st, hn, hs, nil)
 				x := env.eval(ce.Args[1])
-				add(name, x.S)
+				if x.Sort == "Iface" {
+					add(hn, "(ipay "+x.S+")")
+				} else {
+					add(hn, x.S)
+				}
 				return
 			}
 		}
@@ -700,25 +731,30 @@ func (vc *VC) evalWriteTarget(env *SpecEnv, e ast.Expr, text string, add func(h,
 			}
 			return
 		}
+		_ = w
 		x := env.eval(e)
-		switch under(x.T).(type) {
-		case *types.Map:
-			mi := vc.mapInfo(x.T)
-			vc.mapDom(env.st, mi, x.S)
-			vc.mapVal(env.st, mi, x.S)
-			vc.mapCard(env.st, mi, x.S)
-			add(mi.dn, x.S)
-			add(mi.vn, x.S)
-			add(mi.cn, x.S)
-		case *types.Chan:
-			ci := vc.chanInfo(x.T)
-			vc.chanBuf(env.st, ci, x.S)
-			vc.chanClosed(env.st, x.S)
-			add(ci.bn, x.S)
-			add("Chc", x.S)
-		default:
-			vc.specFail(e, "unsupported write target %s", w.Text)
-		}
+		vc.addObjectTargets(env, x, e, add)
+	}
+}
+
+func (vc *VC) addObjectTargets(env *SpecEnv, x Term, e ast.Expr, add func(h, ref string)) {
+	switch under(x.T).(type) {
+	case *types.Map:
+		mi := vc.mapInfo(x.T)
+		vc.mapDom(env.st, mi, x.S)
+		vc.mapVal(env.st, mi, x.S)
+		vc.mapCard(env.st, mi, x.S)
+		add(mi.dn, x.S)
+		add(mi.vn, x.S)
+		add(mi.cn, x.S)
+	case *types.Chan:
+		ci := vc.chanInfo(x.T)
+		vc.chanBuf(env.st, ci, x.S)
+		vc.chanClosed(env.st, x.S)
+		add(ci.bn, x.S)
+		add("Chc", x.S)
+	default:
+		vc.specFail(e, "unsupported write target %s", exprString(e))
 	}
 }
 
@@ -786,6 +822,10 @@ func (vc *VC) builtinExtern(st *State, callee *types.Func, recv *Term, args []Te
 	if vc.isLoggingHelper(callee) {
 		return nil, true
 	}
+	if callee.Name() == "panicf" && callee.Pkg() != nil && vc.p.pkgs[callee.Pkg().Path()] != nil {
+		vc.execPanic(st, call)
+		return nil, true
+	}
 	return nil, false
 }
 
@@ -804,4 +844,74 @@ func (vc *VC) isLoggingHelper(fn *types.Func) bool {
 func (vc *VC) execSelectModel(st *State, x *ast.SelectStmt) []*State {
 	vc.fail(x, "select statement (channel model not enabled for this function)")
 	return nil
+}
+
+// lockOp models mu.Lock/Unlock/RLock/RUnlock where mu is a field `owner.mu` of a pointer-held struct.
+// Ghost state G$lock$<Struct>$<field>[owner]: 0 free, 1 read-held, 2 write-held (by this activation).
+func (vc *VC) lockOp(st *State, callee *types.Func, recvExpr ast.Expr, call *ast.CallExpr) bool {
+	se, ok := ast.Unparen(recvExpr).(*ast.SelectorExpr)
+	if !ok {
+		return false
+	}
+	sel, ok := vc.info.Selections[se]
+	if !ok || sel.Kind() != types.FieldVal {
+		return false
+	}
+	rt := vc.typeOf(recvExpr)
+	n, ok := rt.(*types.Named)
+	if !ok || (n.Obj().Name() != "Mutex" && n.Obj().Name() != "RWMutex") {
+		return false
+	}
+	bt := vc.typeOf(se.X)
+	pt, ok := under(bt).(*types.Pointer)
+	if !ok {
+		return false
+	}
+	owner := vc.evalExpr(st, se.X)
+	vc.oblige(st, "safe-nil", exprString(recvExpr), vc.pos(call), not(eq(owner.S, "0")), nil)
+	hname := vc.lockHeapName(vc.ts.apply(pt.Elem()), se.Sel.Name)
+	h := vc.heapGet(st, hname, "(Array Int Int)", nil)
+	cur := sel2(h.S, owner.S)
+	set := func(v string) { st.heap[hname] = Term{S: store(h.S, owner.S, v), Sort: "(Array Int Int)"} }
+	switch callee.Name() {
+	case "Lock":
+		vc.oblige(st, "lock-order", "Lock() on "+exprString(recvExpr)+" while not already held by this activation", vc.pos(call), eq(cur, "0"), nil)
+		set("2")
+	case "RLock":
+		vc.oblige(st, "lock-order", "RLock() on "+exprString(recvExpr)+" while not already held by this activation", vc.pos(call), eq(cur, "0"), nil)
+		set("1")
+	case "Unlock":
+		vc.oblige(st, "lock-order", "Unlock() of "+exprString(recvExpr)+" requires the write lock", vc.pos(call), eq(cur, "2"), nil)
+		set("0")
+	case "RUnlock":
+		vc.oblige(st, "lock-order", "RUnlock() of "+exprString(recvExpr)+" requires the read lock", vc.pos(call), eq(cur, "1"), nil)
+		set("0")
+	default:
+		return false
+	}
+	vc.note("assumed: sync.Mutex/RWMutex provide mutual exclusion (lock state tracked as ghost; interleavings not explored)")
+	return true
+}
+
+func sel2(a, i string) string { return sel(a, i) }
+
+func (vc *VC) lockHeapName(structT types.Type, field string) string {
+	return "G$lock$" + strings.TrimPrefix(vc.u.SortOf(structT), "S_") + "$" + field
+}
+
+// lockTarget resolves a spec expression `x.mu` to (heap, owner ref).
+func (e *SpecEnv) lockTarget(x ast.Expr) (string, string) {
+	vc := e.vc
+	se, ok := x.(*ast.SelectorExpr)
+	if !ok {
+		vc.specFail(x, "held()/lock() expects owner.mutexField")
+	}
+	owner := e.eval(se.X)
+	pt, ok := under(owner.T).(*types.Pointer)
+	if !ok {
+		vc.specFail(x, "held()/lock(): owner must be a pointer")
+	}
+	hn := vc.lockHeapName(vc.ts.apply(pt.Elem()), se.Sel.Name)
+	vc.heapGet(e.st, hn, "(Array Int Int)", nil)
+	return hn, owner.S
 }
